@@ -10,6 +10,7 @@ import (
 	"github.com/spikeekips/mitum/util/encoder"
 	jsonenc "github.com/spikeekips/mitum/util/encoder/json"
 	"github.com/spikeekips/mitum/util/fixedtree"
+	"github.com/spikeekips/mitum/util/valuehash"
 )
 
 // env: encoders with every hint a block file can contain, one local node (block producer / map signer),
@@ -116,4 +117,39 @@ func (e *env) proposal(point base.Point, prev util.Hash, ophs [][2]util.Hash, ne
 	must(pr.Sign(e.local.Privatekey(), net))
 
 	return pr
+}
+
+// a finished DRAW: two nodes, two different facts at the same point, no majority; structurally valid and properly signed
+func (e *env) initVoteproofDraw(point base.Point, prev, pr util.Hash) isaac.INITVoteproof {
+	sfs := make([]base.BallotSignFact, 2)
+	for i, n := range []base.LocalNode{e.local, e.other} {
+		p := pr
+		if i == 1 {
+			p = valuehash.RandomSHA256()
+		}
+		sf := isaac.NewINITBallotSignFact(isaac.NewINITBallotFact(point, prev, p, nil))
+		must(sf.NodeSign(n.Privatekey(), e.networkID, n.Address()))
+		sfs[i] = sf
+	}
+	vp := isaac.NewINITVoteproof(point)
+	vp.SetSignFacts(sfs).SetThreshold(e.threshold).Finish()
+
+	return vp
+}
+
+func (e *env) acceptVoteproofDraw(point base.Point, pr, newblock util.Hash) isaac.ACCEPTVoteproof {
+	sfs := make([]base.BallotSignFact, 2)
+	for i, n := range []base.LocalNode{e.local, e.other} {
+		b := newblock
+		if i == 1 {
+			b = valuehash.RandomSHA256()
+		}
+		sf := isaac.NewACCEPTBallotSignFact(isaac.NewACCEPTBallotFact(point, pr, b, nil))
+		must(sf.NodeSign(n.Privatekey(), e.networkID, n.Address()))
+		sfs[i] = sf
+	}
+	vp := isaac.NewACCEPTVoteproof(point)
+	vp.SetSignFacts(sfs).SetThreshold(e.threshold).Finish()
+
+	return vp
 }
